@@ -186,6 +186,9 @@ def generic_rules(body):
     # R10b  `a >= l.key()` (both sides &[u8], left side a local) => `*a >= *l.key()`
     for h in re.finditer(r'(?<![\w.)])([a-z_]\w*)\s*(<=|>=)\s*([A-Za-z_]\w*)\.key\(\)', m):
         edits.append((h.start(), h.end(), '*%s %s *%s.key()' % (h.group(1), h.group(2), h.group(3)), 'R10'))
+    # R10c  `l.key() <= a` (both sides &[u8], right side a local) => `*l.key() <= *a`
+    for h in re.finditer(r'\b([A-Za-z_]\w*)\.key\(\)\s*(<=|>=|<|>)\s*(?!\*)([a-z_]\w*)\b(?!\s*[.(])', m):
+        edits.append((h.start(), h.end(), '*%s.key() %s *%s' % (h.group(1), h.group(2), h.group(3)), 'R10'))
     # R18  V.sort_unstable_by_key(|x| x.key.clone()) / (|x| x.key_bytes()) => V.sort_by_entry_key_v()
     #      (trait shim: std's contract of a sort by the entry's key, prelude/sort_by_key.rs; Ord of Bytes is the order of the
     #      byte view, proved in unit bytes)
@@ -757,6 +760,12 @@ def build_fn(key, mode, log):
             if prev and prev[-1] not in ';}{':
                 raise LostAnchor('%s:%d: the block declaring %s ends in a tail expression in %s' % (c.rel, d['lineno'], nm, where))
             inserts.append((end, ghost_text(d), tag, d))
+        elif k == 'loop-before':
+            n = int(d['arg'].split()[0])
+            if n < 1 or n > len(loops):
+                raise LostAnchor('%s:%d: loop %d not found in %s' % (c.rel, d['lineno'], n, where))
+            # in front of the statement the loop keyword starts (a `for`/`while`/`loop` at statement level)
+            inserts.append((loops[n - 1].start(), ghost_text(d), tag, d))
         elif k == 'loop-after':
             n = int(d['arg'].split()[0])
             if n < 1 or n > len(loops):
